@@ -56,3 +56,8 @@ chk("C17",
     "(seq) explicit-state BFS over Invalidate/clock-advance sequences against the acceptance model; (conc) exhaustive schedule enumeration of 2-3 Invalidate callers plus a clock thread, with callbacks that contain a scheduling point so that overlap would be observable.",
     "Trusted: virtual clock; attribution of callbacks to calls through a context value.",
     "explicit-state BFS + stateless model checking of the implementation (preemption-bounded / HB-cached DFS)", "DESIGN.md §C17")
+
+chk("C18",
+    "(backends) explicit-state BFS over C07's operation alphabet with a recording StatsTracker, comparing metric totals with reference-model-derived counts after every transition; (Failover) the complete lone-Get decision table and concurrent 2-3 thread workloads on two keys (incl. SkipRead) under the scheduler, comparing totals at quiescence with the harness's own operation log in every explored schedule.",
+    "Trusted: harness operation log (pass-through backend wrapper, builder counters). Reads of Failover's internal failure cache are not observable and not accounted.",
+    "explicit-state BFS + stateless model checking of the implementation (preemption-bounded DFS)", "DESIGN.md §C18")
